@@ -10,7 +10,7 @@
 //   O jt      multiplyBySystemJacobianTranspose(F)
 // P lines: the property's predicates on the implementation's own outputs.
 #include "treedyn_gen.h"
-static_assert(TREEDYN_GEN_VERSION == 10, "bump the version here when treedyn_gen.h changes");
+static_assert(TREEDYN_GEN_VERSION == 12, "bump the version here when treedyn_gen.h changes");
 using namespace SimTK;
 using td::TreeCase;
 
@@ -18,8 +18,8 @@ static double svmax(const Vector_<SpatialVec>& v) {
     double m = 0; for (int i = 0; i < v.size(); ++i) for (int k = 0; k < 2; ++k) for (int j = 0; j < 3; ++j) m = std::max(m, std::fabs(v[i][k][j])); return m;
 }
 
-static void runCase(uint64_t caseSeed, int maxBodies) {
-    td::Options opt; opt.maxBodies = maxBodies; opt.zeroUProb = 0.25;
+static void runCase(uint64_t caseSeed, int code) {
+    td::Options opt; td::applyGenCode(code, opt); opt.zeroUProb = 0.25;
     std::unique_ptr<TreeCase> pc = td::buildCase(caseSeed, opt);
     TreeCase& c = *pc; State& s = c.state; const SimbodyMatterSubsystem& matter = *c.matter;
     const int nu = c.nu, nb = c.nb;
@@ -36,7 +36,7 @@ static void runCase(uint64_t caseSeed, int maxBodies) {
     c.discrete.setAllBodyForces(s, F);
     c.sys->realize(s, Stage::Acceleration);
 
-    vh::Line in = vh::I("fwdinv"); in.s(std::to_string(caseSeed)).i(maxBodies).i(c.zeroU ? 1 : 0);
+    vh::Line in = vh::I("fwdinv"); in.s(std::to_string(caseSeed)).i(code).i(c.zeroU ? 1 : 0);
     td::exportTree(c, in);
     for (int i = 1; i <= nb; ++i) { const SpatialVec& a = matter.getMobilizerCoriolisAcceleration(s, MobilizedBodyIndex(i)); in.v(a[0], 3).v(a[1], 3); }
     for (int i = 1; i <= nb; ++i) { const SpatialVec& b = matter.getGyroscopicForce(s, MobilizedBodyIndex(i)); in.v(b[0], 3).v(b[1], 3); }
@@ -58,7 +58,49 @@ static void runCase(uint64_t caseSeed, int maxBodies) {
     vh::D("bodyforces." + std::to_string(fmode));
 
     if (nu == 0) return;
-    const std::string key = "C02.tree";
+    const std::string key = td::anyLoneParticle(c) ? "C02.loneparticle" : "C02.tree";
+    {   // the gyroscopic force used by both recursions IS b = (w x (I w), m w x (w x p)), recomputed from body-frame public data
+        double worst = 0;
+        for (int i = 1; i <= nb; ++i) {
+            const MobilizedBody& mb = c.mobods[i];
+            const MassProperties& bp = mb.getBodyMassProperties(s);
+            const Rotation& R = mb.getBodyRotation(s);
+            const Vec3 w = mb.getBodyAngularVelocity(s);
+            const Vec3 p = R * bp.getMassCenter();
+            const Mat33 IB = bp.getMass() * Mat33(bp.getUnitInertia().toMat33());
+            const Mat33 IG = R.asMat33() * IB * ~R.asMat33();
+            const SpatialVec bexp(w % (IG * w), bp.getMass() * (w % (w % p)));
+            const SpatialVec& b = matter.getGyroscopicForce(s, MobilizedBodyIndex(i));
+            double sc = 1; for (int r = 0; r < 2; ++r) for (int q = 0; q < 3; ++q) sc = std::max(sc, std::fabs(bexp[r][q]));
+            for (int r = 0; r < 2; ++r) for (int q = 0; q < 3; ++q) worst = std::max(worst, std::fabs(b[r][q] - bexp[r][q]) / sc);
+        }
+        vh::P("gyroscopic_force_from_body_data", key + ".b_from_q", worst, 1e-12);
+    }
+    if (td::hasReversedLineQuat(c)) vh::D("fd.skipped.reversedLine.quaternion");
+    else {   // the Coriolis accelerations used by both recursions ARE d/dt(J) u: central difference of getBodyVelocity along qdot, u held fixed
+        const Real h = 1e-5;
+        State sp = s, sm = s;
+        sp.updQ() = s.getQ() + h * s.getQDot(); sm.updQ() = s.getQ() - h * s.getQDot();
+        c.sys->realize(sp, Stage::Velocity); c.sys->realize(sm, Stage::Velocity);
+        double worstTot = 0, worstMob = 0;
+        for (int i = 1; i <= nb; ++i) {
+            const MobilizedBody& mb = c.mobods[i];
+            const SpatialVec Afd = (mb.getBodyVelocity(sp) - mb.getBodyVelocity(sm)) / (2 * h);
+            const SpatialVec& Atot = matter.getTotalCoriolisAcceleration(s, MobilizedBodyIndex(i));
+            double sc = 1; for (int r = 0; r < 2; ++r) for (int q = 0; q < 3; ++q) sc = std::max(sc, std::fabs(Atot[r][q]));
+            for (int r = 0; r < 2; ++r) for (int q = 0; q < 3; ++q) worstTot = std::max(worstTot, std::fabs(Atot[r][q] - Afd[r][q]) / sc);
+            // incremental (mobilizer) Coriolis acceleration = total - parent's total shifted outward
+            const int pi = c.parentOf[i];
+            SpatialVec AP(Vec3(0), Vec3(0));
+            if (pi > 0) AP = matter.getTotalCoriolisAcceleration(s, MobilizedBodyIndex(pi));
+            const Vec3 l = mb.getBodyOriginLocation(s) - mb.getParentMobilizedBody().getBodyOriginLocation(s);
+            const SpatialVec aexp(Atot[0] - AP[0], Atot[1] - (AP[1] + AP[0] % l));
+            const SpatialVec& a = matter.getMobilizerCoriolisAcceleration(s, MobilizedBodyIndex(i));
+            for (int r = 0; r < 2; ++r) for (int q = 0; q < 3; ++q) worstMob = std::max(worstMob, std::fabs(a[r][q] - aexp[r][q]) / sc);
+        }
+        vh::P("coriolis_acceleration_is_dJdt_u_central_difference", key + ".a_from_q", worstTot, 2e-6);
+        vh::P("mobilizer_coriolis_is_total_minus_shifted_parent", key + ".a_incremental", worstMob, 1e-11);
+    }
     const Vector zero(nu, 0.0); Vector_<SpatialVec> noF(nb + 1); noF = SpatialVec(Vec3(0), Vec3(0));
     Vector C; matter.calcResidualForceIgnoringConstraints(s, zero, noF, zero, C);      // velocity-dependent bias C(q,u)
     const double fscale = std::max(1.0, std::max(std::max(td::vmaxabs(f), td::vmaxabs(JtF)), td::vmaxabs(C)));
@@ -88,7 +130,7 @@ static void runCase(uint64_t caseSeed, int maxBodies) {
         matter.multiplyByM(s, u0, Mu0);
         vh::P("bias_shared", key + ".bias", td::vmaxabs(Mu0 + C) / std::max(1.0, td::vmaxabs(C)), 1e-7);
         Vector MudK; matter.multiplyByM(s, udotK, MudK);
-        vh::P("residual_is_Mudot_plus_C_minus_f", key + ".affine", td::vmaxabs(resid - (MudK + C - f - JtF)) / fscale / std::max(1.0, td::vmaxabs(MudK)), 1e-9);
+        vh::P("residual_is_Mudot_plus_C_minus_f", key + ".affine", td::vmaxabs(resid - (MudK + C - f - JtF)) / std::max(fscale, td::vmaxabs(MudK)), 1e-9);
         if (c.zeroU) vh::P("zero_velocity_no_bias", key + ".zeroU", td::vmaxabs(C), 1e-12);
     }
     (void)svmax;
@@ -100,8 +142,8 @@ int main(int argc, char** argv) {
         static char buf[1 << 24];
         while (std::fgets(buf, sizeof buf, stdin)) {
             if (std::strncmp(buf, "I fwdinv ", 9) != 0) continue;
-            unsigned long long cs; int mb;
-            if (std::sscanf(buf + 9, "%llu %d", &cs, &mb) == 2) runCase(cs, mb);
+            unsigned long long cs; int code;
+            if (std::sscanf(buf + 9, "%llu %d", &cs, &code) == 2) runCase(cs, code);
         }
         return 0;
     }
@@ -111,7 +153,7 @@ int main(int argc, char** argv) {
         const uint64_t cs = master.next() >> 1;
         int maxB = 12;
         if (thorough && master.below(5) == 0) maxB = 40;
-        runCase(cs, maxB);
+        runCase(cs, td::genCode(maxB, td::flagsForCase(k)));
     }
     return 0;
 }
